@@ -11,8 +11,8 @@ for res in sorted(glob.glob('/tmp/sc/results/*.json'), key=os.path.getmtime):
         continue
     parts = seed.strip('/').split('/')
     pid, m = parts[-2], parts[-1]
-    if os.path.isdir(seed + 'b'):
-        continue  # superseded by a hand-rebased patch (<m>b)
+    if os.path.isdir(seed + 'b') or os.path.isdir(os.path.join('/verif/seeded', pid, m + 'b')) or seed.startswith('/verif/seeded'):
+        continue  # superseded by a hand-rebased patch (<m>b) / a seed that already lives under seeded/
     dst = os.path.join('/verif/seeded', pid, m)
     os.makedirs(dst, exist_ok=True)
     for f in glob.glob(seed + '/*'):
